@@ -106,7 +106,11 @@ def exec_roundtrip(case, out):
         finally:
             os.unlink(path)
         return
-    t = proj.build_tensor(case["tree"], IDS[:depth], shape=[4] * depth, default=d, name="TT")
+    t = proj.build_tensor(case["tree"], IDS[:depth], shape=None if case.get("lateshape") else [4] * depth, default=d, name="TT")
+    if case.get("lateshape"):
+        # built without a shape, asked for its (estimated) shape, THEN given one: the declared shape is the tensor's shape from then on
+        _ = t.getShape(), t.getShape(authoritative=True)
+        t.setShape(list(case["lateshape"]))
     if case.get("flatten"):
         t = t.flattenRanks(depth=0, levels=case["flatten"], coord_style=case.get("fstyle", "tuple"))
     if case["obj"] == "tensor":
